@@ -65,6 +65,11 @@ SCEN = {
     "initial_enthalpy_comp": [("HKUST-1",)],
 }
 THOROUGH_ONLY = {"psd_dft": [("MCM-41",)]}
+# fixtures without a relative pressure: every one-isotherm entry point x every ABSOLUTE pressure unit (+ loading / material
+# representations that can be constructed); the outcome class must not depend on the representation either
+NOP0_FIXTURES = ("nop0-CO2-35C", "nop0-custom")
+NOP0_ENTRIES = ("area_BET", "area_langmuir", "area_langmuir[limits]", "t_plot", "dr_plot", "da_plot", "psd_mesoporous[pygaps-DH]",
+                "psd_microporous[HK]", "psd_dft[core]", "initial_henry_slope", "initial_henry_virial")
 HISTORY_ANALYSES = ("alpha_s", "isosteric_enthalpy", "enthalpy_sorption_whittaker")
 SCALES = ((1, 3), (7, 1))
 
@@ -126,7 +131,7 @@ def parallel_oracle(module, records, chunk, jobs=4):
 
 
 class Variant:
-    __slots__ = ("entry", "an", "names", "role", "kind", "to", "variant", "scale", "sS0", "sR0", "sS", "sR", "outcome", "res", "exc", "msg", "base", "mag", "atoms", "stored", "history", "chg")
+    __slots__ = ("entry", "an", "names", "role", "kind", "to", "variant", "scale", "sS0", "sR0", "sS", "sR", "outcome", "res", "exc", "msg", "base", "mag", "atoms", "stored", "history", "chg", "base_outcome")
 
 
 def build_isos(v):
@@ -191,7 +196,7 @@ def ask_spec(variants, limit):
     """AccessPlanOracle: class and expected monomials per run; InvarianceTrace: the verdict per run"""
     recs = []
     for v in variants:
-        keys = sorted(v.base) if v.outcome == "ok" else []
+        keys = sorted(v.base) if v.outcome == "ok" and getattr(v, "base_outcome", "ok") == "ok" else []
         recs.append({"k": "run", "an": v.an, "role": v.role, "sS0": v.sS0, "sR0": v.sR0, "sS": v.sS, "sR": v.sR, "keys": [k for k in keys]})
     answers = parallel_oracle("AccessPlanOracle", recs, 600)
     t_oracle = time.time()
@@ -202,13 +207,15 @@ def ask_spec(variants, limit):
         if ans["cls"] != ans["table"]:
             raise MachineryError(f"class table of spec/AccessPlan.tla is not exact at {v.an} {v.sS} {v.sR}: {ans['cls']} vs {ans['table']}")
         q = {"an": v.an, "role": v.role, "variant": v.variant, "scale": list(v.scale or (1, 1)), "sS0": v.sS0, "sR0": v.sR0, "sS": v.sS, "sR": v.sR,
-             "cls": ans["cls"], "outcome": v.outcome, "obs": []}
-        if v.outcome == "ok":
+             "cls": ans["cls"], "outcome": v.outcome, "base_outcome": getattr(v, "base_outcome", "ok"), "obs": []}
+        if v.outcome == "ok" and q["base_outcome"] == "ok":
             for info in ans["keys"]:
                 k = info["key"]
                 vec = {a: e for a, e in info["vec"]}
                 fac = v.atoms.value(vec)
                 if fac is None:
+                    if v.names[0] in NOP0_FIXTURES:      # a constant this adsorbate cannot supply: the key is not judged
+                        continue
                     raise MachineryError(f"cannot evaluate the monomial {vec} for {v.names}")
                 if v.variant == "scale":
                     logfac = info["sexp"] * math.log(v.scale[0] / v.scale[1])
@@ -285,9 +292,13 @@ def replay(path):
     v.sS0, v.sR0, v.sS, v.sR = det["start_sample_labels"], det["start_other_labels"], det["sample_labels"], det["other_labels"]
     isos0 = [fixture(n) for n in v.names]
     out, v.base, msg = run_entry(v.entry, isos0)
+    v.base_outcome = out
     if out != "ok":
-        print(f"the entry point no longer runs on the fixture as stored: {v.base}: {msg}")
-        return 2
+        if v.names[0] not in NOP0_FIXTURES:
+            print(f"the entry point no longer runs on the fixture as stored: {v.base}: {msg}")
+            return 2
+        print(f"as stored the entry point refuses this fixture: {v.base}: {msg[:120]}")
+        v.base = {}
     v.atoms = Atoms(isos0[0].adsorbate, isos0[0].temperature, isos0[0].material)
     if not execute(v):
         print("the changed copy can no longer be constructed")
@@ -337,26 +348,34 @@ def main(tier, seed):
     nbase = 0
     for entry in sorted(scen):
         an = ENTRY[entry][0]
-        tuples = scen[entry] if thorough else [scen[entry][seed % len(scen[entry])]]
+        tuples = list(scen[entry]) if thorough else [scen[entry][seed % len(scen[entry])]]
         two = len(tuples[0]) > 1
+        if entry in NOP0_ENTRIES:
+            tuples += [(n,) for n in (NOP0_FIXTURES if thorough or entry.startswith("area_langmuir") else NOP0_FIXTURES[seed % 2:seed % 2 + 1])]
         for names in tuples:
+            nop0 = names[0] in NOP0_FIXTURES
             isos0 = [fixture(n) for n in names]
             sS0 = labels_of(isos0[0])
             sR0 = labels_of(isos0[1]) if two else dict(sS0)
             out, base, msg = run_entry(entry, isos0)
             if out != "ok":
-                raise MachineryError(f"{entry} on {names} as stored does not run on this tree: {base}: {msg}")
+                if not nop0:
+                    raise MachineryError(f"{entry} on {names} as stored does not run on this tree: {base}: {msg}")
+                base = {}
+            base_outcome = out
             nbase += 1
             atoms = Atoms(isos0[0].adsorbate, isos0[0].temperature, isos0[0].material)
             changes = []      # (kind, to, fields)
             for p in sorted(tuple(r) for r in cover[an]["P"]):
+                if nop0 and p[0] != "absolute":
+                    continue        # (the conversion itself is refused: no saturation pressure)
                 changes.append(("pressure", p[0], {"pm": p[0], "pu": p[1]}))
             for l in reps_of(an, "L"):
                 changes.append(("loading", l[0], {"lb": l[0], "lu": l[1]}))
             for m in reps_of(an, "M"):
                 changes.append(("material", m[0], {"mb": m[0], "mu": m[1]}))
             changes.append(("temperature", "degC", {"tu": "degC"}))
-            if thorough or entry in ("area_BET", "alpha_s", "isosteric_enthalpy", "psd_mesoporous[pygaps-DH]", "initial_henry_slope"):
+            if (thorough or entry in ("area_BET", "alpha_s", "isosteric_enthalpy", "psd_mesoporous[pygaps-DH]", "initial_henry_slope")) and not nop0:
                 allp = sorted(tuple(r) for r in cover[an]["P"])
                 alll = sorted(tuple(r) for c in cover[an]["L"] for r in c["reps"])
                 allm = sorted(tuple(r) for c in cover[an]["M"] for r in c["reps"])
@@ -402,6 +421,7 @@ def main(tier, seed):
                 v = Variant()
                 v.entry, v.an, v.names, v.role, v.kind, v.to, v.variant, v.scale = entry, an, names, role, kind, to, variant, sc
                 v.sS0, v.sR0, v.sS, v.sR, v.base, v.atoms, v.history, v.chg = sS0, sR0, sS, sR, base, atoms, history, chg
+                v.base_outcome = base_outcome
                 if history == "fresh-reference":      # both runs are in the target representation: nothing may differ
                     v.sS0, v.sR0 = sS, sR
                 if not execute(v):      # the conversion itself was refused (a constant is unavailable): nothing to analyse
@@ -430,6 +450,8 @@ def main(tier, seed):
             if core is None or v.an in ("enthalpy_sorption_whittaker",):
                 continue
             f = v.atoms.value({a: e for a, e in dl["vec"]})
+            if f is None:
+                continue
             col = v.stored[dl["col"]]
             if v.variant == "scale" and dl["col"] == "loading" and v.role in ("S", "A"):
                 pass        # (stored numbers are the scaled ones already)
